@@ -167,6 +167,21 @@ def run(ctx):
                    "of each coarse interval, so the value of that one step stands for the whole interval instead of the average over its fine "
                    "steps (a capacity series that is 0 in the first half of each day and 10 in the second gives the daily asset capacity 0)",
                    node=st)
+    # ... and interval data (start / end / values) in Asset.make_vector, the one place where limits given as dictionaries reach the grid
+    # (Transport has the call too, but its constructor rejects dictionaries: unreachable, not judged)
+    mv = p.fn_opt("Asset.make_vector")
+    if mv is None:
+        ctx.ob("C13.k", "Asset", "make_vector", None, "Asset.make_vector not found")
+    else:
+        for c in p.calls_in(mv):
+            if au.method_name(c) == "values_to_grid" and isinstance(c.func, ast.Attribute) and "restricted" in au.U(c.func.value):
+                n_k += 1
+                paired = any(isinstance(a, ast.If) and "I_minor_in_major" in au.U(a.test) for a in p.ancestors(c))
+                ctx.ob("C13.k", mv, au.short(c, 70), paired,
+                       "interval data is put on the restricted grid only; for an asset with a coarser frequency the restricted grid holds the "
+                       "first point of each coarse interval, so the value valid at that point stands for the whole interval instead of the "
+                       "average over its fine steps - unlike the same limit given as a series (limit 10 in the first half of day 1, then 0: "
+                       "daily capacity 240 as dictionary, 120 as series)", node=c)
     ctx.require(n_k >= 3, "fewer than 3 price series restricted to the asset's grid found", rules=["C13.k"])
 
     # ================================================================= C13.l the average is weighted with the step lengths
